@@ -389,11 +389,16 @@ struct C10Ctx
    bool exactCap = false;     // result vectors with index capacity exactly dim (SSVectorBase(dim) as a stand-alone user creates them)
    // growth of the factors as reported by the factorisation itself (1/stability(), >= 1); SPxBasisBase refactorises below minStab ~ 1e-6,
    // so the drivers keeps it <= ~1e7.  Rounding level after updates = unit roundoff x growth.
+   // error amplification of the current update history: the larger of (a) the element growth 1/stability() the factorisation reports for
+   // itself (SPxBasisBase::change() keeps using an updated factorisation down to stability ~1e-6) and (b) the first-order amplification
+   // implied by the updates actually applied since the last factorisation, 1 + sum_j |alpha_j|_max / |pivot_j| (exact pivot ratios; the
+   // product-form eta file does not enter stability() unless an eta entry exceeds the largest matrix entry).
+   double histGrowth = 0;
    double growth() const
    {
       if(phase == "loaded") return 1.0;     // a fresh factorisation: plain rounding level
       double s = (double)F->stability();
-      return (s > 0 && s < 1) ? 1.0 / s : 1.0;
+      return std::max((s > 0 && s < 1) ? 1.0 / s : 1.0, 1.0 + histGrowth);
    }
    // index capacity of caller-owned semi-sparse vectors: dim + 1 as the solver's own vectors have (created empty, then reDim()), or exactly
    // dim as SSVectorBase(dim) and the SSVectorBase copy constructor give
@@ -550,9 +555,7 @@ static void judge(C10Ctx& C, bool left, RhsV& b, bool wantFwd, const std::vector
    // rounding level 1e-9 relative (DESIGN C10) + the absolute zero tolerance `epsilon` (1e-16) with which the solves drop entries
    Q allow = qd(64.0 * n * C.eps0) * (normM + qd(1.0 / (double)C.F->markowitz()));
    double rho = C.growth();
-   // rounding level: 1e-9 relative for a fresh factorisation, amplified by the element growth 1/stability() that the factorisation
-   // reports for itself (SPxBasisBase::change() keeps using an updated factorisation down to stability ~1e-6).  Calibration on the
-   // unchanged tree (6.4e6 judged vectors, histories of up to 200 updates): largest residual = 0.03 of this threshold.
+   // rounding level: 1e-9 relative for a fresh factorisation, amplified after updates by C.growth() (see there)
    Q thr = qd(1e-9 * rho) * (normM * xn + bn) + allow;
    double ratio = dq(rmax) / dq(thr);
    S.maxi(std::string("c10.resid/thr.") + (left ? "left." : "right.") + C.phase, ratio);
@@ -1046,6 +1049,7 @@ static void caseC10(long long k, Rng& g)
       S.count("c10.refactorizations");
       sinceRefac = 0;
       C.nupd = 0;
+      C.histGrowth = 0;
       C.phase = "loaded";
       etaArgSinceRefac = false;
       noUpdateVectorSetUp = true;
@@ -1180,6 +1184,7 @@ static void caseC10(long long k, Rng& g)
       applied++;
       sinceRefac++;
       C.nupd = sinceRefac;
+      C.histGrowth += dq(Q(vinf(alpha) / qabs(alpha[(size_t)r])));
       if(etaArg) etaArgSinceRefac = true;
       C.phase = etaArgSinceRefac ? "updated-etaarg" : "updated";
       noUpdateVectorSetUp = true;
